@@ -361,6 +361,14 @@ pub fn run(cfg: &Config) -> i32 {
                     cases.push(Case { ty: ty.to_string(), ccy: ccy.to_string(), amount, class });
                 }
             }
+            // integers written without the comma at and just below the length limit (where the library takes that
+            // spelling, what it writes back must still be something it reads)
+            for (lab, n) in [("no-comma:len=max", *limit), ("no-comma:len=max-1", limit.saturating_sub(1)), ("no-comma:len=max-2", limit.saturating_sub(2))] {
+                if n >= 1 {
+                    cases.push(Case { ty: ty.to_string(), ccy: ccy.to_string(), amount: "9".repeat(n), class: lab.to_string() });
+                    cases.push(Case { ty: ty.to_string(), ccy: ccy.to_string(), amount: format!("1{}", "0".repeat(n - 1)), class: lab.to_string() });
+                }
+            }
             // small values and zero, trailing zeros, leading zeros, no comma
             for (lab, s) in [("zero", "0,"), ("zero-2dec", "0,00"), ("one-cent", "0,01"), ("leading-zeros", "000123,45"), ("no-comma", "12345"), ("trailing-zeros", "12,3400"), ("one", "1,"), ("half", "0,5")] {
                 cases.push(Case { ty: ty.to_string(), ccy: ccy.to_string(), amount: s.to_string(), class: lab.to_string() });
